@@ -7,13 +7,26 @@ R33a  every construction of ``LintedFile`` in the tree receives as ``violations`
       signature is recorded); ``line_no``/``line_pos`` are source positions
       (``pos.source_position()``); ``LintedDir.add`` serialises the records through a sort on
       ``(start_line_no, start_line_pos, code)``.
-      Accepted idioms: ``if sig not in seen:`` / ``if sig in seen: continue``; the constructor
-      argument may be the call itself or a local whose only definition is that call.
+      Accepted idioms: ``if sig not in seen:`` / ``if sig in seen: continue`` / the test held
+      in a boolean local (opened only when nothing it reads is rebound before the branch); the
+      constructor argument may be the call itself or a local whose only definition is that call;
+      ``kept.sort(key=...)`` + ``return kept`` for ``return sorted(kept, key=...)`` (one sort of
+      the list created here, dominating the return, nothing changes the list after it); the key
+      as a lambda, ``operator.attrgetter/itemgetter`` or a local bound to one; position stores
+      through tuple unpacking, constant subscripts or locals (component 0 -> line_no,
+      1 -> line_pos); the serialised records built from ``file.get_violations()`` directly,
+      through a local, or by a loop appending to a fresh list.
 R33b  every ``source_signature`` contains the check tuple (code, line, pos) and the
       description; ``SQLLintError.source_signature`` additionally the edit raws and, per
       source fix, (edit, source start, source stop); it must not read any templated-space
       attribute of a source fix (``templated_slice``): that differs per loop iteration and
-      would defeat the de-duplication.
+      would defeat the de-duplication.  The returned tuple (and the check tuple) may be bound to
+      a local first; iterated attributes and ``source_slice`` may be read through locals
+      (canonical attribute chains); the edit raws may be collected by a generator or by a loop
+      appending to a fresh list.
+R33c  the tree and the templated file handed to ``lint_fix_parsed`` / ``generate_source_patches``
+      belong to the same variant: identity of the variant is what the name can hold (origins),
+      not its spelling; the fixed tree may come from unpacking the result or from ``result[0]``.
 
 Not decided: that equal signatures mean "the same violation" for a user.
 """
@@ -22,10 +35,10 @@ from __future__ import annotations
 
 import ast
 
-from ..cfg import cfg_of, origins
+from ..cfg import atoms, cfg_of, origins
 from ..flowutil import (
     attr_chain, callee, describe_origin, for_origin, is_fresh_list, is_fresh_set, must_pass, mutations_of,
-    param_origin, sole_expr_origin, sorted_info,
+    param_origin, sole_expr_origin, sorted_info, SortedInfo,
 )
 from ..index import AnalysisError, FuncNode, arg_of, call_name, calls_in, kwarg, last_attr, norm, short, walk_local
 from .c30 import _constructions, _enclosing_class, _enclosing_fn
@@ -46,6 +59,150 @@ def run(chk) -> None:
     _r33c(chk, repo)
 
 
+def _conditions(cfg, stmt):
+    """cfg.conditions with boolean locals opened up: ``is_new = sig not in seen`` / ``if is_new:``
+    gives the same atoms as ``if sig not in seen:`` — only when the local has that one definition
+    and nothing the test reads can have been rebound between the assignment and the branch."""
+    rd = cfg.reaching()
+    out = []
+    work = list(cfg.conditions(stmt))
+    budget = 50
+    while work and budget:
+        budget -= 1
+        e, pol = work.pop(0)
+        if isinstance(e, ast.Name):
+            at = cfg.stmt_of(e)
+            ds = list(rd.defs_at(at, e.id)) if at is not None else []
+            if len(ds) == 1 and ds[0].kind == "assign" and not ds[0].path and ds[0].value is not None:
+                d = ds[0]
+                stable = all(
+                    {id(x) for x in rd.defs_at(d.stmt, n.id)} == {id(x) for x in rd.defs_at(at, n.id)}
+                    for n in ast.walk(d.value) if isinstance(n, ast.Name)
+                )
+                if stable:
+                    work += atoms(d.value, pol)
+                    continue
+        out.append((e, pol))
+    return out
+
+
+def _const_index(e):
+    """(value, index) of ``value[<non-negative int constant>]``, else None."""
+    if (
+        isinstance(e, ast.Subscript) and isinstance(e.slice, ast.Constant) and isinstance(e.slice.value, int)
+        and not isinstance(e.slice.value, bool) and e.slice.value >= 0
+    ):
+        return e.value, e.slice.value
+    return None
+
+
+def _is_source_component(cfg, val, path, at, want, depth=0) -> bool:
+    """``val[path]`` (evaluated at ``at``) is component ``want`` of a ``<marker>.source_position()``
+    pair, or an unmodified parameter: through tuple displays, constant subscripts and locals."""
+    path = tuple(path)
+    if depth > 6 or val is None:
+        return False
+    while path and isinstance(val, (ast.Tuple, ast.List)) and isinstance(path[0], int) and path[0] < len(val.elts):
+        val, path = val.elts[path[0]], path[1:]
+    ci = _const_index(val)
+    if ci is not None:
+        return _is_source_component(cfg, ci[0], (ci[1],) + path, at, want, depth + 1)
+    if isinstance(val, ast.Call):
+        return last_attr(val) == "source_position" and isinstance(val.func, ast.Attribute) and not val.args and not val.keywords and path == (want,)
+    if isinstance(val, ast.Name):
+        os_ = origins(cfg, val, at, None, path)
+        if not os_:
+            return False
+        for o in os_:
+            if o.kind == "param" and not o.path:
+                continue
+            if o.kind == "expr" and not isinstance(o.expr, ast.Name) and _is_source_component(cfg, o.expr, o.path, o.stmt, want, depth + 1):
+                continue
+            return False
+        return True
+    return False
+
+
+class _SortFacts:
+    """iterable / key components ('$' = the element) / direction of ``sorted(it, key=...)`` or
+    ``lst.sort(key=...)``.  The key may be a one-parameter lambda, ``operator.attrgetter(...)`` /
+    ``operator.itemgetter(...)`` with constant arguments, or a local bound once to one of those."""
+
+    def __init__(self, cfg, call: ast.Call, at):
+        info = SortedInfo(call)
+        self.call = call
+        self.iterable = info.iterable
+        self.ascending = info.ascending
+        self.components = info.components
+        key = info.key
+        if isinstance(key, ast.Name):
+            key = sole_expr_origin(cfg, key, at)
+            if isinstance(key, ast.Lambda):
+                self.components = SortedInfo(ast.Call(func=call.func, args=list(call.args), keywords=[ast.keyword(arg="key", value=key)])).components
+        if isinstance(key, ast.Call) and not key.keywords and key.args and all(isinstance(a, ast.Constant) for a in key.args):
+            fq = _operator_function(call, key)
+            if fq == "operator.attrgetter" and all(isinstance(a.value, str) for a in key.args):
+                self.components = [f"$.{a.value}" for a in key.args]
+            elif fq == "operator.itemgetter":
+                self.components = [f"$[{a.value!r}]" for a in key.args]
+
+
+def _operator_function(ctx_node, call: ast.Call):
+    """'operator.attrgetter' / 'operator.itemgetter' when the callee is that stdlib function."""
+    m = ctx_node._module
+    name = call_name(call)
+    if not name:
+        return None
+    head, _, rest = name.partition(".")
+    fq = m.imports.get(head)
+    if fq is None or head in m.defs:
+        return None
+    fq = f"{fq}.{rest}" if rest else fq
+    return fq if fq in ("operator.attrgetter", "operator.itemgetter") else None
+
+
+def _sorted_facts(cfg, e, at):
+    if isinstance(e, ast.Call) and call_name(e) == "sorted" and e.args:
+        return _SortFacts(cfg, e, at)
+    return None
+
+
+def _sources_of(cfg, expr, at, depth=0, func=None):
+    """``expr`` and, for every plain local read in it that has a single defining expression,
+    that expression too (transitively): what the value is computed from."""
+    out = [expr]
+    if depth > 4:
+        return out
+    bound = {n.id for c in ast.walk(expr) if isinstance(c, ast.comprehension) for n in ast.walk(c.target) if isinstance(n, ast.Name)}
+    for n in ast.walk(expr):
+        if isinstance(n, ast.Name) and isinstance(n.ctx, ast.Load) and n.id not in bound:
+            os_ = origins(cfg, n, at)
+            if func is not None:
+                # a list created here and only appended to: what is appended, and over what
+                for filled in _filled_by(cfg, func, n, at):
+                    out += _sources_of(cfg, filled, cfg.stmt_of(filled), depth + 1, func)
+            if len(os_) == 1 and os_[0].kind == "expr" and not os_[0].path and os_[0].stmt is not None:
+                out += _sources_of(cfg, os_[0].expr, os_[0].stmt, depth + 1, func)
+    return out
+
+
+def _canon_chain(cfg, e, at, depth=0):
+    """attr_chain with the root opened when it is a local holding another chain
+    (``s = x.source_slice; s.start`` -> ('x', 'source_slice', 'start'))."""
+    ch = attr_chain(e)
+    if not ch or depth > 4:
+        return ch
+    root = e
+    while isinstance(root, ast.Attribute):
+        root = root.value
+    os_ = origins(cfg, root, at)
+    if len(os_) == 1 and os_[0].kind == "expr" and not os_[0].path and isinstance(os_[0].expr, ast.Attribute) and os_[0].stmt is not None:
+        head = _canon_chain(cfg, os_[0].expr, os_[0].stmt, depth + 1)
+        if head:
+            return tuple(head) + tuple(ch[1:])
+    return ch
+
+
 def _r33c(chk, repo) -> None:
     """A file with unreached template branches is rendered in several variants and each is linted;
     the results meet in deduplicate_in_source_space.  Fix discarding and source mapping go through
@@ -55,26 +212,43 @@ def _r33c(chk, repo) -> None:
     lp = repo.fn("src/sqlfluff/core/linter/linter.py", "Linter.lint_parsed")
     cfg = cfg_of(lp)
 
+    def variant_key(name, at):
+        """Identity of what a plain name holds, independent of its spelling: the statements /
+        expressions its value can come from (a local copy of a variant is that variant)."""
+        return frozenset((o.kind, id(o.stmt) if o.stmt is not None else id(o.expr), tuple(o.path)) for o in origins(cfg, name, at))
+
     def owner(e, at, depth=0):
-        """(variable, reaching defs) of the variant an expression is an attribute of / derives from."""
+        """(variable, identity) of the variant an expression is an attribute of / derives from."""
         if isinstance(e, ast.Attribute) and isinstance(e.value, ast.Name) and e.attr in ("tree", "templated_file"):
-            return (e.value.id, frozenset(id(d) for d in cfg.reaching().defs_at(at, e.value.id)))
-        if isinstance(e, ast.Name) and depth < 4:
-            os_ = origins(cfg, e, at)
-            owners = set()
+            return (e.value.id, variant_key(e.value, at))
+        name, path = None, ()
+        if isinstance(e, ast.Name):
+            name = e
+        elif (
+            isinstance(e, ast.Subscript) and isinstance(e.value, ast.Name) and isinstance(e.slice, ast.Constant)
+            and isinstance(e.slice.value, int) and not isinstance(e.slice.value, bool) and e.slice.value >= 0
+        ):
+            # ``result = lint_fix_parsed(...); result[0]``: the same component as unpacking by position
+            name, path = e.value, (e.slice.value,)
+        if name is not None and depth < 4:
+            os_ = origins(cfg, name, at, None, path)
+            owners = {}
             for o in os_:
                 if o.kind != "expr":
                     return None
                 x = o.expr
-                if isinstance(x, ast.Call) and last_attr(x) == "lint_fix_parsed" and o.path == (0,):
+                if isinstance(x, ast.Call) and last_attr(x) == "lint_fix_parsed" and tuple(o.path) == (0,):
                     # the fixed tree returned for a variant belongs to the variant whose tree went in
                     a = x.args[0] if x.args else kwarg(x, "tree")
-                    owners.add(owner(a, o.stmt, depth + 1))
+                    ow = owner(a, o.stmt, depth + 1) if a is not None else None
                 elif not o.path:
-                    owners.add(owner(x, o.stmt, depth + 1))
+                    ow = owner(x, o.stmt, depth + 1)
                 else:
                     return None
-            return owners.pop() if len(owners) == 1 else None
+                if ow is None:
+                    return None
+                owners[ow[1]] = ow
+            return next(iter(owners.values())) if len(owners) == 1 else None
         return None
 
     n = 0
@@ -95,7 +269,7 @@ def _r33c(chk, repo) -> None:
             continue
         ot, of_ = (owner(t, st) if t is not None else None), owner(f, st)
         chk.require(
-            ot is not None and ot == of_, "R33c", c,
+            ot is not None and of_ is not None and ot[1] == of_[1], "R33c", c,
             f"{name}() receives the tree of `{ot[0] if ot else norm(t) if t is not None else '?'}` but the templated file of `{of_[0] if of_ else norm(f)}`: "
             "the variant's rendered positions are mapped through another variant's source map",
             detail=f"{name}: tree and templated_file of one variant",
@@ -147,10 +321,29 @@ def _r33a(chk, repo) -> None:
     chk.count("R33a.dedupe_returns", len(rets))
     chk.floor("R33a.dedupe_returns", 1)
     kept_names = set()
+    accepted_sorts = set()
     for r in rets:
         e = sole_expr_origin(cfg, r.value, r) if r.value is not None else None
-        si = sorted_info(e)
+        si = _sorted_facts(cfg, e, cfg.stmt_of(e) if e is not None else r)
         key_ok = si is not None and si.components is not None and si.components[:2] == ["$.line_no", "$.line_pos"] and si.ascending
+        if si is None and isinstance(r.value, ast.Name) and (os_r := origins(cfg, r.value, r)) and all(o.kind == "expr" and is_fresh_list(o.expr) for o in os_r):
+            # ``kept.sort(key=...)`` then ``return kept`` is sorted(kept, key=...) for a list created here:
+            # one sort, with the same key, on every path to the return, and nothing changes the list after it
+            muts = mutations_of(dd, r.value.id)
+            sorts = [node for k, node in muts if k == "sort"]
+            if len(sorts) == 1:
+                srt = sorts[0]
+                s_st = cfg.stmt_of(srt)
+                info = _SortFacts(cfg, srt, s_st)
+                later = [node for k, node in muts if node is not srt and cfg.reaches(s_st, cfg.stmt_of(node))]
+                if (
+                    not srt.args and info.components is not None and info.components[:2] == ["$.line_no", "$.line_pos"] and info.ascending
+                    and {id(o.stmt) for o in origins(cfg, srt.func.value, s_st)} == {id(o.stmt) for o in os_r}  # the very list that is returned
+                    and cfg.dominates(s_st, r) and not later
+                ):
+                    key_ok = True
+                    accepted_sorts.add(id(srt))
+                    kept_names.add(r.value.id)
         chk.require(
             key_ok, "R33a", r,
             "deduplicate_in_source_space does not return the kept violations sorted (ascending) by (line_no, line_pos)",
@@ -165,11 +358,15 @@ def _r33a(chk, repo) -> None:
             )
         elif si is not None:
             chk.fail("R33a", r, "the sorted iterable is not the local list filled under the seen-set test", detail="sorted over kept list")
+        elif key_ok:
+            pass  # sorted in place (accepted above)
         elif isinstance(r.value, ast.Name) and all(o.kind == "expr" and is_fresh_list(o.expr) for o in origins(cfg, r.value, r)):
             kept_names.add(r.value.id)  # unsorted return already reported; still check how the list is filled
     n_app = 0
     for kept in sorted(kept_names):
         for k, node in mutations_of(dd, kept):
+            if id(node) in accepted_sorts:
+                continue
             if k != "append":
                 chk.fail("R33a", node, f"kept-violations list changed by '{k}', bypassing the seen-set test", detail=f"kept list {k}")
                 continue
@@ -181,7 +378,7 @@ def _r33a(chk, repo) -> None:
             if not it_ok:
                 continue
             ok, seen, sig = False, None, None
-            for e, pol in cfg.conditions(st):
+            for e, pol in _conditions(cfg, st):
                 if isinstance(e, ast.Compare) and len(e.ops) == 1 and (
                     (isinstance(e.ops[0], ast.NotIn) and pol) or (isinstance(e.ops[0], ast.In) and not pol)
                 ):
@@ -223,13 +420,18 @@ def _r33a(chk, repo) -> None:
             if not any(ch in (("self", "line_no"), ("self", "line_pos")) for ch in chains):
                 continue
             n_pos += 1
-            os_ = origins(c, node.value, node) if isinstance(node.value, ast.Name) else None
             val = node.value
-            good = False
-            if isinstance(val, ast.Call):
-                good = last_attr(val) == "source_position" and not val.args
-            elif os_ is not None:
-                good = all(o.kind == "param" for o in os_)
+            # every stored component is the matching component of <marker>.source_position() or an
+            # unmodified parameter (through tuple unpacking, constant subscripts and locals)
+            good = True
+            for t in node.targets:
+                parts = [(x, (i,)) for i, x in enumerate(t.elts)] if isinstance(t, ast.Tuple) else [(t, ())]
+                for x, pth in parts:
+                    ch = attr_chain(x)
+                    if ch == ("self", "line_no"):
+                        good = good and _is_source_component(c, val, pth, node, 0)
+                    elif ch == ("self", "line_pos"):
+                        good = good and _is_source_component(c, val, pth, node, 1)
             chk.require(
                 good, "R33a", node,
                 f"violation position used for ordering is set from {short(val, 60)}, not from the marker's source position",
@@ -253,14 +455,16 @@ def _r33a(chk, repo) -> None:
     want = ["$['start_line_no']", "$['start_line_pos']", "$['code']"]
     for d, v in dicts:
         e = sole_expr_origin(cfg, v, cfg.stmt_of(d))
-        si = sorted_info(e)
+        si = _sorted_facts(cfg, e, cfg.stmt_of(e) if e is not None else cfg.stmt_of(d))
         ok = si is not None and si.components == want and si.ascending
         chk.require(ok, "R33a", d, "the serialised violations of a record are not sorted by (start_line_no, start_line_pos, code)", detail="record violations sorted by (line, pos, code)")
         src_ok = False
         if si is not None:
-            for c in ast.walk(si.iterable):
-                if isinstance(c, ast.Call) and last_attr(c) == "get_violations" and isinstance(c.func, ast.Attribute) and fparam and param_origin(cfg, c.func.value, cfg.stmt_of(d)) == fparam[0]:
-                    src_ok = True
+            # the sorted iterable, with locals it reads opened (``vs = file.get_violations(); sorted(... for v in vs)``)
+            for src in _sources_of(cfg, si.iterable, cfg.stmt_of(si.call), 0, add):
+                for c in ast.walk(src):
+                    if isinstance(c, ast.Call) and last_attr(c) == "get_violations" and isinstance(c.func, ast.Attribute) and fparam and param_origin(cfg, c.func.value, cfg.stmt_of(c)) == fparam[0]:
+                        src_ok = True
         chk.require(src_ok, "R33a", d, "the serialised violations are not taken from the added file's get_violations()", detail="record violations from file.get_violations()")
     ldm = repo.mod(LDIR)
     for node in ast.walk(ldm.tree):
@@ -287,11 +491,11 @@ def _r33b(chk, repo) -> None:
         rets = [r for r in walk_local(f) if isinstance(r, ast.Return) and r.value is not None]
         chk.require(bool(rets), "R33b", f, "source_signature returns nothing", detail="returns a tuple")
         for r in rets:
-            comps = list(r.value.elts) if isinstance(r.value, ast.Tuple) else [r.value]
+            comps = _ret_components(cfg, r)
             exprs = []
-            for c in comps:
+            for c, at in comps:
                 if isinstance(c, ast.Name):
-                    exprs += [(o.expr, o) for o in origins(cfg, c, r)]
+                    exprs += [(o.expr, o) for o in origins(cfg, c, at)]
                 else:
                     exprs.append((c, None))
             has_ct = any(isinstance(e, ast.Call) and attr_chain(e.func) == ("self", "check_tuple") for e, _ in exprs)
@@ -316,22 +520,57 @@ def _r33b(chk, repo) -> None:
         chk.sample({"rule": "R33b", "site": f"{m.relpath}:{f.lineno}", "signature": [short(r.value, 100) for r in rets]})
     # the check tuple itself
     ct = repo.fn(ERRORS, "SQLBaseError.check_tuple")
-    for r in [r for r in walk_local(ct) if isinstance(r, ast.Return)]:
-        elts = [norm(e) for e in r.value.elts] if isinstance(r.value, ast.Tuple) else []
+    ct_cfg = cfg_of(ct)
+    for r in [r for r in walk_local(ct) if isinstance(r, ast.Return) and r.value is not None]:
+        comps = _ret_components(ct_cfg, r)  # the tuple display, directly or through a local
+        elts = [norm(sole_expr_origin(ct_cfg, c, at) or c) for c, at in comps] if len(comps) > 1 else []
         chk.require(elts == ["self.rule_code()", "self.line_no", "self.line_pos"], "R33b", r, "check_tuple is not (rule code, line_no, line_pos)", detail="check_tuple = (code, line, pos)")
+
+
+def _ret_components(cfg, r):
+    """(component expression, statement it is evaluated at) of the returned signature: the tuple
+    display itself, or the one tuple display a returned local was bound to."""
+    v, at = r.value, r
+    if isinstance(v, ast.Name):
+        os_ = origins(cfg, v, r)
+        if len(os_) == 1 and os_[0].kind == "expr" and not os_[0].path and isinstance(os_[0].expr, ast.Tuple) and os_[0].stmt is not None:
+            v, at = os_[0].expr, os_[0].stmt
+    return [(x, at) for x in v.elts] if isinstance(v, ast.Tuple) else [(v, at)]
+
+
+def _filled_by(cfg, f, e, at):
+    """For ``tuple(L)`` / ``list(L)`` / ``L`` with L a list created in the function and changed only
+    by ``append``: the appended expressions and the iterables of the loops around each append
+    (what a generator expression would have spelled in one place); else nothing."""
+    if isinstance(e, ast.Call) and call_name(e) in ("tuple", "list") and len(e.args) == 1 and not e.keywords:
+        e = e.args[0]
+    if not isinstance(e, ast.Name):
+        return []
+    os_ = origins(cfg, e, at)
+    if not (os_ and all(o.kind == "expr" and is_fresh_list(o.expr) for o in os_)):
+        return []
+    muts = mutations_of(f, e.id)
+    if not muts or any(k != "append" or len(node.args) != 1 for k, node in muts):
+        return []
+    out = []
+    for _k, node in muts:
+        out.append(node.args[0])
+        out += [l.iter for l in _loops_around(node, f)]
+    return out
 
 
 def _lint_signature(chk, cfg, f, r, comps) -> None:
     """Edit raws and source-fix triples of SQLLintError.source_signature."""
     fix_raws = False
     triples = False
-    for c in comps:
-        es = [o.expr for o in origins(cfg, c, r)] if isinstance(c, ast.Name) else [c]
-        for e in es:
-            # tuple(... e.raw for e in f.edit ... for f in self.fixes)
-            raws = [n for n in ast.walk(e) if isinstance(n, ast.Attribute) and n.attr == "raw"]
-            over_fixes = any(attr_chain(n) == ("self", "fixes") for n in ast.walk(e))
-            over_edit = any(isinstance(n, ast.Attribute) and n.attr == "edit" for n in ast.walk(e))
+    for c, c_at in comps:
+        es = [(o.expr, o.stmt) for o in origins(cfg, c, c_at)] if isinstance(c, ast.Name) else [(c, c_at)]
+        for e, e_at in es:
+            # tuple(... e.raw for e in f.edit ... for f in self.fixes), or the same walk as a loop filling a list
+            nodes = [n for root in _sources_of(cfg, e, e_at, 0, f) + _filled_by(cfg, f, e, e_at) for n in ast.walk(root)]
+            raws = [n for n in nodes if isinstance(n, ast.Attribute) and n.attr == "raw"]
+            over_fixes = any(attr_chain(n) == ("self", "fixes") for n in nodes)
+            over_edit = any(isinstance(n, ast.Attribute) and n.attr == "edit" for n in nodes)
             if raws and over_fixes and over_edit:
                 fix_raws = True
             # tuple(<list>) where the list receives (x.edit, x.source_slice.start, x.source_slice.stop)
@@ -340,18 +579,20 @@ def _lint_signature(chk, cfg, f, r, comps) -> None:
                 for k, node in mutations_of(f, lst):
                     if k != "append" or not node.args or not isinstance(node.args[0], ast.Tuple):
                         continue
-                    chains = [attr_chain(x) for x in node.args[0].elts]
+                    # a component may be read through a local (``s = x.source_slice; s.start``)
+                    chains = [_canon_chain(cfg, x, cfg.stmt_of(node)) for x in node.args[0].elts]
                     if not all(chains):
                         continue
                     base = {ch[0] for ch in chains}
                     tails = [ch[1:] for ch in chains]
                     if len(base) == 1 and ("edit",) in tails and ("source_slice", "start") in tails and ("source_slice", "stop") in tails:
                         fo = for_origin(cfg, ast.Name(id=base.pop(), ctx=ast.Load()), cfg.stmt_of(node))
-                        if fo and isinstance(fo[0].iter, ast.Attribute) and fo[0].iter.attr == "source_fixes":
+                        # loop iterables may be read through locals (``edits = fix.edit; for edit in edits``)
+                        if fo and (_canon_chain(cfg, fo[0].iter, fo[0]) or ("",))[-1] == "source_fixes" and len(_canon_chain(cfg, fo[0].iter, fo[0])) > 1:
                             # and the walk covers every edit of every fix
                             outer = [p for p in _loops_around(node, f)]
-                            roots = [norm(l.iter) for l in outer]
-                            if any(x == "self.fixes" for x in roots) and any(x.endswith(".edit") for x in roots):
+                            roots = [_canon_chain(cfg, l.iter, l) or () for l in outer]
+                            if any(x == ("self", "fixes") for x in roots) and any(len(x) > 1 and x[-1] == "edit" for x in roots):
                                 triples = True
     chk.require(fix_raws, "R33b", r, "lint-error signature lacks the raws of the proposed edits: violations with different fixes collapse into one", detail="signature has edit raws")
     chk.require(triples, "R33b", r, "lint-error signature lacks (edit, source start, source stop) of every source fix", detail="signature has source-fix (edit, start, stop)")
@@ -369,7 +610,173 @@ from ..selftest import Variant  # noqa: E402
 
 LINTER = "src/sqlfluff/core/linter/linter.py"
 
+_DEDUPE_LOOP = (
+    "        for v in violations:\n            signature = v.source_signature()\n            if signature not in dedupe_buffer:\n"
+    "                new_violations.append(v)\n                dedupe_buffer.add(signature)\n            else:\n"
+    "                linter_logger.debug(\"Removing duplicate source violation: %r\", v)\n"
+)
+_ALT_CALL = (
+    "                (\n                    alt_fixed_tree,\n                    alt_linting_errors,\n                    _,  # Ignore Mask\n                    _,  # Timings\n"
+    "                ) = cls.lint_fix_parsed(\n                    alternate_variant.tree,\n"
+)
+_ALT_REST = (
+    "                    config=parsed.config,\n                    rule_pack=rule_pack,\n                    fix=fix,\n                    fname=parsed.fname,\n"
+    "                    templated_file=alternate_variant.templated_file,\n                    formatter=formatter,\n                )\n"
+    "                violations += alt_linting_errors\n"
+)
+_POS = "        if pos:\n            self.line_no, self.line_pos = pos.source_position()\n        else:\n            self.line_no = line_no\n            self.line_pos = line_pos\n"
+_RECORDS = (
+    "        violation_records = sorted(\n            # Keep the warnings\n            (v.to_dict() for v in file.get_violations(filter_warning=False)),\n"
+    "            # The tuple allows sorting by line number, then position, then code\n"
+    "            key=lambda v: (v[\"start_line_no\"], v[\"start_line_pos\"], v[\"code\"]),\n        )\n"
+)
+_TRIPLE = (
+    "                    _source_fixes.append(\n                        (\n                            source_edit.edit,\n"
+    "                            source_edit.source_slice.start,\n                            source_edit.source_slice.stop,\n                        )\n                    )\n"
+)
+_SIG_RETURN = "        return (self.check_tuple(), self.description, fix_raws, tuple(_source_fixes))\n"
+
 VARIANTS = [
+    # behaviour-preserving refactors: must stay quiet
+    Variant(
+        "quiet-alternate-variant-through-locals", LINTER,
+        "                ) = cls.lint_fix_parsed(\n                    alternate_variant.tree,\n",
+        "                ) = cls.lint_fix_parsed(\n                    tree=alternate_variant.tree,\n",
+        "QUIET", None, "tree passed by keyword",
+    ),
+    Variant(
+        "quiet-alternate-result-kept-whole-then-indexed", LINTER,
+        _ALT_CALL + _ALT_REST,
+        "                alt_result = cls.lint_fix_parsed(\n                    alternate_variant.tree,\n" + _ALT_REST.replace(
+            "                violations += alt_linting_errors\n",
+            "                alt_fixed_tree = alt_result[0]\n                violations += alt_result[1]\n",
+        ),
+        "QUIET", None, "R33c: the 4-tuple of lint_fix_parsed kept whole and subscripted, instead of unpacked",
+    ),
+    Variant(
+        "quiet-alternate-templated-file-through-local", LINTER,
+        _ALT_CALL + _ALT_REST.split("                    templated_file=")[0] + "                    templated_file=alternate_variant.templated_file,\n",
+        "                alt_templated_file = alternate_variant.templated_file\n" + _ALT_CALL + _ALT_REST.split("                    templated_file=")[0] + "                    templated_file=alt_templated_file,\n",
+        "QUIET", None, "R33c: the variant's templated file read into a local first",
+    ),
+    Variant(
+        "quiet-lintedfile-dedupe-through-local-and-keywords", LINTER,
+        "        linted_file = LintedFile(\n            parsed.fname,\n            # Deduplicate violations\n            LintedFile.deduplicate_in_source_space(violations),\n            FileTimings(time_dict, rule_timings),\n            tree,\n",
+        "        unique_violations = LintedFile.deduplicate_in_source_space(violations)\n        linted_file = LintedFile(\n            path=parsed.fname,\n            violations=unique_violations,\n            timings=FileTimings(time_dict, rule_timings),\n            tree=tree,\n",
+        "QUIET", None, "R33a: de-duplicated list bound to a local; keyword arguments",
+    ),
+    Variant(
+        "quiet-dedupe-early-continue-and-add-first", LFILE,
+        _DEDUPE_LOOP,
+        "        for violation in violations:\n            signature = violation.source_signature()\n            if signature in dedupe_buffer:\n"
+        "                linter_logger.debug(\"Removing duplicate source violation: %r\", violation)\n                continue\n"
+        "            dedupe_buffer.add(signature)\n            new_violations.append(violation)\n",
+        "QUIET", None, "R33a: if/else respelled as early continue; add before append; loop variable renamed",
+    ),
+    Variant(
+        "quiet-dedupe-seen-test-in-boolean-local", LFILE,
+        _DEDUPE_LOOP,
+        "        for v in violations:\n            signature = v.source_signature()\n            is_new = signature not in dedupe_buffer\n            if is_new:\n"
+        "                new_violations.append(v)\n                dedupe_buffer.add(signature)\n            else:\n"
+        "                linter_logger.debug(\"Removing duplicate source violation: %r\", v)\n",
+        "QUIET", None, "R33a: the seen-set test hoisted into a boolean local",
+    ),
+    Variant(
+        "quiet-dedupe-sorts-in-place", LFILE,
+        "        return sorted(new_violations, key=lambda v: (v.line_no, v.line_pos))\n",
+        "        new_violations.sort(key=lambda v: (v.line_no, v.line_pos))\n        return new_violations\n",
+        "QUIET", None, "R33a: list.sort on the fresh list instead of sorted() (both stable, same key)",
+    ),
+    Variant(
+        "quiet-dedupe-signature-inlined-sorted-through-local", LFILE,
+        _DEDUPE_LOOP + "        # Sort on return so that if any are out of order, they're now ordered\n        # appropriately. This happens most often when linting multiple variants.\n        return sorted(new_violations, key=lambda v: (v.line_no, v.line_pos))\n",
+        "        for v in violations:\n            if v.source_signature() not in dedupe_buffer:\n"
+        "                new_violations.append(v)\n                dedupe_buffer.add(v.source_signature())\n            else:\n"
+        "                linter_logger.debug(\"Removing duplicate source violation: %r\", v)\n"
+        "        ordered = sorted(new_violations, key=lambda v: (v.line_no, v.line_pos))\n        return ordered\n",
+        "QUIET", None, "R33a: signature computed in place at both uses; sorted list through a local",
+    ),
+    Variant(
+        "quiet-dedupe-sort-key-as-attrgetter", LFILE,
+        "        return sorted(new_violations, key=lambda v: (v.line_no, v.line_pos))\n",
+        "        from operator import attrgetter\n\n        return sorted(new_violations, key=attrgetter(\"line_no\", \"line_pos\"))\n",
+        "QUIET", None, "R33a: key lambda respelled with operator.attrgetter",
+    ),
+    Variant(
+        "quiet-records-filled-in-a-loop-sorted-by-itemgetter", LDIR,
+        _RECORDS,
+        "        from operator import itemgetter\n\n        unsorted_records = []\n        for v in file.get_violations(filter_warning=False):\n            unsorted_records.append(v.to_dict())\n"
+        "        violation_records = sorted(\n            unsorted_records,\n            key=itemgetter(\"start_line_no\", \"start_line_pos\", \"code\"),\n        )\n",
+        "QUIET", None, "R33a: generator respelled as a loop filling a list; key by operator.itemgetter",
+    ),
+    Variant(
+        "quiet-check-tuple-through-locals", ERRORS,
+        "        return (\n            self.rule_code(),\n            self.line_no,\n            self.line_pos,\n        )\n",
+        "        code = self.rule_code()\n        check = (code, self.line_no, self.line_pos)\n        return check\n",
+        "QUIET", None, "R33b: check tuple built through locals",
+    ),
+    Variant(
+        "quiet-signature-walk-through-locals", ERRORS,
+        "        for fix in self.fixes:\n            if not fix.edit:\n                continue\n            for edit in fix.edit:\n                for source_edit in edit.source_fixes:\n",
+        "        fixes = self.fixes\n        for fix in fixes:\n            edits = fix.edit\n            if not edits:\n                continue\n            for edit in edits:\n                source_fixes = edit.source_fixes\n                for source_edit in source_fixes:\n",
+        "QUIET", None, "R33b: the iterated attributes read into locals first",
+    ),
+    Variant(
+        "quiet-signature-fix-raws-over-local-fixes", ERRORS,
+        "        fix_raws = tuple(\n            tuple(e.raw for e in f.edit) if f.edit else None for f in self.fixes\n        )\n",
+        "        fixes = self.fixes\n        fix_raws = tuple(\n            tuple(e.raw for e in f.edit) if f.edit else None for f in fixes\n        )\n",
+        "QUIET", None, "R33b: self.fixes read into a local first",
+    ),
+    Variant(
+        "quiet-position-unpacked-into-the-parameters-first", ERRORS,
+        _POS,
+        "        if pos:\n            line_no, line_pos = pos.source_position()\n        self.line_no = line_no\n        self.line_pos = line_pos\n",
+        "QUIET", None, "R33a: source position unpacked over the defaults, one unconditional store",
+    ),
+    Variant(
+        "quiet-position-kept-whole-then-indexed", ERRORS,
+        _POS,
+        "        if pos:\n            position = pos.source_position()\n            self.line_no = position[0]\n            self.line_pos = position[1]\n        else:\n            self.line_no = line_no\n            self.line_pos = line_pos\n",
+        "QUIET", None, "R33a: (line, pos) pair kept whole and subscripted",
+    ),
+    Variant(
+        "quiet-records-violations-through-local", LDIR,
+        _RECORDS,
+        "        file_violations = file.get_violations(filter_warning=False)\n        violation_records = sorted(\n            [violation.to_dict() for violation in file_violations],\n"
+        "            key=lambda record: (\n                record[\"start_line_no\"],\n                record[\"start_line_pos\"],\n                record[\"code\"],\n            ),\n        )\n",
+        "QUIET", None, "R33a: get_violations() result through a local, list comprehension, renamed lambda parameter",
+    ),
+    Variant(
+        "quiet-records-sorted-inline-in-the-record", LDIR,
+        _RECORDS + "\n        record: LintingRecord = {\n            \"filepath\": file.path,\n            \"violations\": violation_records,\n",
+        "        record: LintingRecord = {\n            \"filepath\": file.path,\n            \"violations\": sorted(\n                (v.to_dict() for v in file.get_violations(filter_warning=False)),\n"
+        "                key=lambda v: (v[\"start_line_no\"], v[\"start_line_pos\"], v[\"code\"]),\n            ),\n",
+        "QUIET", None, "R33a: the local inlined into the dict display",
+    ),
+    Variant(
+        "quiet-signature-tuple-through-local", ERRORS,
+        _SIG_RETURN,
+        "        signature = (\n            self.check_tuple(),\n            self.description,\n            fix_raws,\n            tuple(_source_fixes),\n        )\n        return signature\n",
+        "QUIET", None, "R33b: the signature tuple bound to a local before it is returned",
+    ),
+    Variant(
+        "quiet-signature-source-slice-hoisted", ERRORS,
+        _TRIPLE,
+        "                    source_slice = source_edit.source_slice\n                    _source_fixes.append(\n                        (source_edit.edit, source_slice.start, source_slice.stop)\n                    )\n",
+        "QUIET", None, "R33b: source_edit.source_slice read into a local",
+    ),
+    Variant(
+        "quiet-signature-fix-raws-built-in-a-loop", ERRORS,
+        "        fix_raws = tuple(\n            tuple(e.raw for e in f.edit) if f.edit else None for f in self.fixes\n        )\n",
+        "        raws_per_fix = []\n        for f in self.fixes:\n            raws_per_fix.append(tuple(e.raw for e in f.edit) if f.edit else None)\n        fix_raws = tuple(raws_per_fix)\n",
+        "QUIET", None, "R33b: generator expression respelled as a loop filling a list",
+    ),
+    Variant(
+        "quiet-signature-source-fixes-skip-as-nested-if", ERRORS,
+        "            if not fix.edit:\n                continue\n            for edit in fix.edit:\n                for source_edit in edit.source_fixes:\n                    # NOTE: It's important that we don't dedupe on the\n                    # templated slice for the source fix, because that will\n                    # be different for different locations in any loop.\n" + _TRIPLE,
+        "            if fix.edit:\n                for edit in fix.edit:\n                    for source_edit in edit.source_fixes:\n                        _source_fixes.append(\n                            (\n                                source_edit.edit,\n                                source_edit.source_slice.start,\n                                source_edit.source_slice.stop,\n                            )\n                        )\n",
+        "QUIET", None, "R33b: early continue respelled as a nested if",
+    ),
     Variant(
         "signature-identifies-deletes-by-working-location", ERRORS,
         "            tuple(e.raw for e in f.edit) if f.edit else None for f in self.fixes\n",
@@ -381,12 +788,6 @@ VARIANTS = [
         "                    templated_file=alternate_variant.templated_file,\n",
         "                    templated_file=templated_file,\n",
         "R33c", "lint_parsed", "seeded C33-2",
-    ),
-    Variant(
-        "quiet-alternate-variant-through-locals", LINTER,
-        "                ) = cls.lint_fix_parsed(\n                    alternate_variant.tree,\n",
-        "                ) = cls.lint_fix_parsed(\n                    tree=alternate_variant.tree,\n",
-        "QUIET", None, "tree passed by keyword",
     ),
     Variant(
         "lintedfile-gets-raw-violations", LINTER,
@@ -483,5 +884,124 @@ VARIANTS = [
         "        return (self.check_tuple(), self.desc())\n",
         "        return (self.check_tuple(),)\n",
         "R33b", "SQLBaseError.source_signature",
+    ),
+    # the same breakages written in the refactored spellings the QUIET variants above accept
+    Variant(
+        "alternate-result-indexed-at-the-wrong-component", LINTER,
+        _ALT_CALL + _ALT_REST,
+        "                alt_result = cls.lint_fix_parsed(\n                    alternate_variant.tree,\n" + _ALT_REST.replace(
+            "                violations += alt_linting_errors\n",
+            "                alt_fixed_tree = alt_result[2]\n                violations += alt_result[1]\n",
+        ),
+        "R33c", "lint_parsed", "component 2 is the ignore mask, not the fixed tree",
+    ),
+    Variant(
+        "alternate-local-holds-root-templated-file", LINTER,
+        _ALT_CALL + _ALT_REST.split("                    templated_file=")[0] + "                    templated_file=alternate_variant.templated_file,\n",
+        "                alt_templated_file = root_variant.templated_file\n" + _ALT_CALL + _ALT_REST.split("                    templated_file=")[0] + "                    templated_file=alt_templated_file,\n",
+        "R33c", "lint_parsed",
+    ),
+    Variant(
+        "dedupe-boolean-local-is-not-the-seen-test", LFILE,
+        _DEDUPE_LOOP,
+        "        for v in violations:\n            signature = v.source_signature()\n            is_new = bool(signature)\n            if is_new:\n"
+        "                new_violations.append(v)\n                dedupe_buffer.add(signature)\n            else:\n"
+        "                linter_logger.debug(\"Removing duplicate source violation: %r\", v)\n",
+        "R33a", "deduplicate_in_source_space",
+    ),
+    Variant(
+        "dedupe-boolean-local-stale-signature", LFILE,
+        _DEDUPE_LOOP,
+        "        signature = None\n        for v in violations:\n            is_new = signature not in dedupe_buffer\n            signature = v.source_signature()\n            if is_new:\n"
+        "                new_violations.append(v)\n                dedupe_buffer.add(signature)\n            else:\n"
+        "                linter_logger.debug(\"Removing duplicate source violation: %r\", v)\n",
+        "R33a", "deduplicate_in_source_space", "the test reads the previous violation's signature",
+    ),
+    Variant(
+        "dedupe-in-place-sort-by-position-only", LFILE,
+        "        return sorted(new_violations, key=lambda v: (v.line_no, v.line_pos))\n",
+        "        new_violations.sort(key=lambda v: (v.line_pos, v.line_no))\n        return new_violations\n",
+        "R33a", "deduplicate_in_source_space",
+    ),
+    Variant(
+        "dedupe-in-place-sort-then-reversed", LFILE,
+        "        return sorted(new_violations, key=lambda v: (v.line_no, v.line_pos))\n",
+        "        new_violations.sort(key=lambda v: (v.line_no, v.line_pos))\n        new_violations.reverse()\n        return new_violations\n",
+        "R33a", "deduplicate_in_source_space",
+    ),
+    Variant(
+        "dedupe-in-place-sort-only-on-one-path", LFILE,
+        "        return sorted(new_violations, key=lambda v: (v.line_no, v.line_pos))\n",
+        "        if len(dedupe_buffer) < 1000:\n            new_violations.sort(key=lambda v: (v.line_no, v.line_pos))\n        return new_violations\n",
+        "R33a", "deduplicate_in_source_space",
+    ),
+    Variant(
+        "position-unpacked-in-swapped-order", ERRORS,
+        _POS,
+        "        if pos:\n            line_pos, line_no = pos.source_position()\n        self.line_no = line_no\n        self.line_pos = line_pos\n",
+        "R33a", "SQLBaseError.__init__",
+    ),
+    Variant(
+        "position-indexed-from-working-location", ERRORS,
+        _POS,
+        "        if pos:\n            position = pos.working_loc\n            self.line_no = position[0]\n            self.line_pos = position[1]\n        else:\n            self.line_no = line_no\n            self.line_pos = line_pos\n",
+        "R33a", "SQLBaseError.__init__",
+    ),
+    Variant(
+        "records-local-is-not-get-violations", LDIR,
+        _RECORDS,
+        "        file_violations = file.violations\n        violation_records = sorted(\n            [violation.to_dict() for violation in file_violations],\n"
+        "            key=lambda record: (\n                record[\"start_line_no\"],\n                record[\"start_line_pos\"],\n                record[\"code\"],\n            ),\n        )\n",
+        "R33a", "LintedDir.add",
+    ),
+    Variant(
+        "signature-local-tuple-drops-description", ERRORS,
+        _SIG_RETURN,
+        "        signature = (\n            self.check_tuple(),\n            fix_raws,\n            tuple(_source_fixes),\n        )\n        return signature\n",
+        "R33b", "SQLLintError.source_signature",
+    ),
+    Variant(
+        "signature-hoisted-slice-is-the-templated-one", ERRORS,
+        _TRIPLE,
+        "                    source_slice = source_edit.templated_slice\n                    _source_fixes.append(\n                        (source_edit.edit, source_slice.start, source_slice.stop)\n                    )\n",
+        "R33b", "signature has source-fix (edit, start, stop)",
+    ),
+    Variant(
+        "signature-fix-raws-loop-keeps-only-lengths", ERRORS,
+        "        fix_raws = tuple(\n            tuple(e.raw for e in f.edit) if f.edit else None for f in self.fixes\n        )\n",
+        "        raws_per_fix = []\n        for f in self.fixes:\n            raws_per_fix.append(len(f.edit) if f.edit else None)\n        fix_raws = tuple(raws_per_fix)\n",
+        "R33b", "signature has edit raws",
+    ),
+    Variant(
+        "dedupe-attrgetter-key-by-position-first", LFILE,
+        "        return sorted(new_violations, key=lambda v: (v.line_no, v.line_pos))\n",
+        "        from operator import attrgetter\n\n        return sorted(new_violations, key=attrgetter(\"line_pos\", \"line_no\"))\n",
+        "R33a", "deduplicate_in_source_space",
+    ),
+    Variant(
+        "records-loop-filled-from-unfiltered-attribute", LDIR,
+        _RECORDS,
+        "        from operator import itemgetter\n\n        unsorted_records = []\n        for v in file.violations:\n            unsorted_records.append(v.to_dict())\n"
+        "        violation_records = sorted(\n            unsorted_records,\n            key=itemgetter(\"start_line_no\", \"start_line_pos\", \"code\"),\n        )\n",
+        "R33a", "record violations from file.get_violations()",
+    ),
+    Variant(
+        "records-itemgetter-key-by-code-first", LDIR,
+        _RECORDS,
+        "        from operator import itemgetter\n\n        unsorted_records = []\n        for v in file.get_violations(filter_warning=False):\n            unsorted_records.append(v.to_dict())\n"
+        "        violation_records = sorted(\n            unsorted_records,\n            key=itemgetter(\"code\", \"start_line_no\", \"start_line_pos\"),\n        )\n",
+        "R33a", "record violations sorted by (line, pos, code)",
+    ),
+    Variant(
+        "check-tuple-local-holds-rule-name", ERRORS,
+        "        return (\n            self.rule_code(),\n            self.line_no,\n            self.line_pos,\n        )\n",
+        "        code = self.rule_name()\n        check = (code, self.line_no, self.line_pos)\n        return check\n",
+        "R33b", "check_tuple = (code, line, pos)",
+    ),
+    Variant(
+        "signature-walk-local-holds-first-edit-only", ERRORS,
+        "        for fix in self.fixes:\n            if not fix.edit:\n                continue\n            for edit in fix.edit:\n                for source_edit in edit.source_fixes:\n",
+        "        fixes = self.fixes\n        for fix in fixes:\n            edits = fix.edit[:1]\n            if not edits:\n                continue\n            for edit in edits:\n                source_fixes = edit.source_fixes\n                for source_edit in source_fixes:\n",
+        "R33b", "signature has source-fix (edit, start, stop)",
     ),
 ]
